@@ -435,12 +435,14 @@ def _r3_regex_expansion(ctx, rr: FuncInfo) -> None:
     from ..tabulate import Interp, Raised
     r = ctx.r
 
-    class _SC:
+    class SpecialChars:  # as the enumeration of the source: its members are instances of the class
         def __init__(self, ch):
             self.ch = ch
 
+    _SC = SpecialChars
     MULTI, SINGLE = _SC("*"), _SC("?")
-    sc = type("SpecialChars", (), {"WILDCARD_MULTI": MULTI, "WILDCARD_SINGLE": SINGLE})
+    SpecialChars.WILDCARD_MULTI, SpecialChars.WILDCARD_SINGLE = MULTI, SINGLE
+    sc = SpecialChars
 
     class _PH:
         def __init__(self, name):
@@ -502,15 +504,17 @@ def _r3_regex_expansion(ctx, rr: FuncInfo) -> None:
             self.ph = True
             return self
 
-    me = type("R", (), {})()
-    me.regexp = _S("foo%p%bar")
-    me.flags = {"I"}
-
     def cb(p):
         return iter([MULTI, SINGLE, "abc", _PH("q")])
-    it = Interp({"self": me, "callback": cb, "SigmaRegularExpression": _RX, "SigmaString": _S, "SpecialChars": sc, "Placeholder": _PH}, max_steps=5000)
+    from ..tabulate import Proxy, ClassProxy, call_method
+    from functools import partial as _partial
+    RXQ = rr.cls.qual
+    env3 = {"SigmaString": _S, "SpecialChars": sc, "Placeholder": _PH, "partial": _partial}
+    env3["SigmaRegularExpression"] = ClassProxy(ctx.prog, RXQ, env3, ctor=_RX, interp_kwargs={"max_steps": 5000})  # class attributes from the source, instances recorded
+    me = Proxy(ctx.prog, RXQ, env3, {"regexp": _S("foo%p%bar"), "flags": {"I"}}, ctor=_RX, interp_kwargs={"max_steps": 5000})
     try:
-        out = it.call(rr.node.body)
+        out = call_method(ctx.prog, RXQ, rr.name, me, env3, cb, interp_kwargs={"max_steps": 5000})
+        out = list(out) if out is not None else out
     except Raised as ex:
         r.violation("C17.R3", rr.qual, "replace_placeholders on 'foo%p%bar'", f"raises {ex}", rr.loc)
         return
